@@ -191,3 +191,30 @@ PROPS["C15"] = {
             "distinct = distinct (method, status)",
     "assumptions": REDIR_ASSUME,
 }
+
+PROPS["C12"] = {
+    "driver": "c12", "trace_spec": "TraceHostile", "scripts": "faults",
+    "mc_quick": [mc("MCDechunk", "MCDechunk_hostile.cfg", workers=8), mc("MCFlow", "MCFlow_quick.cfg", workers=6),
+                 mc("MCFlow", "MCFlow_ReasonCap4.cfg", workers=4, expect_violation="NotPanicked")],
+    "mc_thorough": [mc("MCDechunk", "MCDechunk_hostile_thorough.cfg", workers=16, timeout=3400, heap="16g"), mc("MCFlow", "MCFlow_thorough.cfg", workers=16, timeout=3000, heap="16g")],
+    "require_classes": ["h:ok", "h:err", "fault:long-name", "fault:many-fields", "fault:splice", "fault:strayCR", "fault:oversize"],
+    "rule": "one case = one server byte string x one arrival/buffer schedule x one request configuration: (a) every string over the decoder alphabet {0,1,a,F,;,SP,CR,LF,x} up to length 5 (quick) / 6 "
+            "into a chunked body reader, whole and in 1-byte pieces; (b) every token string up to length 3 / 4 over a 17-token head alphabet through the whole flow; (c) the 849 faulty exchanges "
+            "TLC enumerates from spec/Faults.tla (delete / duplicate / truncate / oversize / flip / stray CR / stray LF / swap at every segment, splices, 128-200 fields, 64 KiB names, 5 close conditions) "
+            "x seeded schedules x request configurations; (d) seeded byte-level mutations; distinct = distinct (fault operator, site, request) + the enumerated families",
+    "assumptions": ["a hang inside a library call is caught by the harness watchdog (no progress for 30 s => exit 3 => VIOLATION)"],
+}
+
+PROPS["C01"] = {
+    "driver": "c01", "trace_spec": "TraceOutcome",
+    "mc_quick": [mc("MCFlow", "MCFlow_quick.cfg", workers=8), mc("MCDechunk", "MCDechunk_q2.cfg", workers=6), mc("MCSendHead", "MCSendHead.cfg"),
+                 mc("MCBodyWriter", "MCBodyWriter_chunked_impl.cfg"), mc("MCBodyReader", "MCBodyReader.cfg")],
+    "mc_thorough": [mc("MCFlow", "MCFlow_thorough.cfg", workers=16, timeout=3000, heap="16g"), mc("MCDechunk", "MCDechunk_q1.cfg", workers=8), mc("MCSendHead", "MCSendHead.cfg")],
+    "require_kinds": ["run", "outcome"],
+    "rule": "one case = one request configuration (method, version, framing, Expect, payload size) + one server stream of 1..3 back-to-back responses (optional interim 100, CL / chunked / "
+            "close-delimited bodies, 3xx with Location); per case the reference schedule and 45-145 further schedules (single cuts near both ends and random, double cuts, 1-byte arrivals, "
+            "send buffers from {one line, one line-1, 1, 6, 7, 11, 64, large}, read buffers from {0,1,2,3,large}, interleaved queries), exchanges continued on the same byte cursor while reusable; "
+            "distinct = distinct (method, version, framing, Expect, responses, payload size)",
+    "assumptions": ["the caller waits in Await100 until the server decided or all bytes arrived (giving up earlier changes what is sent, legitimately)",
+                    "arrival points inside a 3xx head after a complete Location line are excluded (owned by C05 / known finding KF1)"],
+}
